@@ -586,23 +586,44 @@ fn build_filter(lhs: &AstNode, rhs: &AstNode) -> Result<Evaluator> {
       | v @ Value::Time(_)
       | v @ Value::DaysAndTimeDuration(_)
       | v @ Value::YearsAndMonthsDuration(_)
-      | v @ Value::Context(_) => match rhe(scope) {
-        Value::Boolean(flag) => {
-          if flag {
-            Value::List(Values::new(vec![v]))
-          } else {
-            Value::List(Values::default())
-          }
+      | v @ Value::Context(_) => {
+        // a value that is not a list is filtered like a singleton list: `item` (and the entries
+        // of a context) are visible in the filter expression
+        let mut pushed = 0;
+        let mut has_item_entry = false;
+        if let Value::Context(local_context) = &v {
+          has_item_entry = local_context.contains_entry(&name_item);
+          scope.push(local_context.clone());
+          pushed += 1;
         }
-        Value::Number(num) => {
-          if num.is_one() {
-            v
-          } else {
-            value_null!("only filter index with value 1 is accepted")
-          }
+        if !has_item_entry {
+          let mut special_context = FeelContext::default();
+          special_context.set_entry(&name_item, v.clone());
+          scope.push(special_context);
+          pushed += 1;
         }
-        _ => value_null!("only number or boolean indexes are allowed in filters"),
-      },
+        let rhv = rhe(scope);
+        for _ in 0..pushed {
+          scope.pop();
+        }
+        match rhv {
+          Value::Boolean(flag) => {
+            if flag {
+              Value::List(Values::new(vec![v]))
+            } else {
+              Value::List(Values::default())
+            }
+          }
+          Value::Number(num) => {
+            if num.is_one() || (-num).is_one() {
+              v
+            } else {
+              value_null!("only filter index with value 1 is accepted")
+            }
+          }
+          _ => Value::List(Values::default()),
+        }
+      }
       other => value_null!("fatal error in filter with value: {}", other as Value),
     }
   }))
